@@ -92,6 +92,7 @@ func noTouchingSameText(l lm.List) bool {
 }
 
 func c11Run(c *core.Ctx) {
+	longRun(c, "unfragment")
 	type scope struct {
 		grid  int64
 		max   int
@@ -103,11 +104,11 @@ func c11Run(c *core.Ctx) {
 	var invGrid int64
 	if c.Tier == core.Quick {
 		scopes = []scope{{5, 2, []string{"x", "y", "z"}, []int64{ms, hour + ms}}, {4, 3, []string{"x", "y"}, []int64{ms}}, {3, 4, []string{"x", "y"}, []int64{ms}},
-			{4, 3, []string{"xy", "x|y", "z"}, []int64{ms}}} // the same text in one run and in two
+			{4, 3, []string{"xy", "x|y", "x\ny"}, []int64{ms}}} // the same text in one run and in two; the same letters on two lines (another text)
 		invMax, invGrid = 3, 6
 	} else {
 		scopes = []scope{{5, 3, []string{"x", "y", "z"}, []int64{ms, hour + ms}}, {4, 4, []string{"x", "y"}, []int64{ms, ns}}, {5, 4, []string{"x", "y"}, []int64{ms}}, {3, 5, []string{"x", "y"}, []int64{ms}},
-			{4, 4, []string{"xy", "x|y", "z"}, []int64{ms}}}
+			{4, 4, []string{"xy", "x|y", "x\ny"}, []int64{ms}}}
 		invMax, invGrid = 3, 9
 	}
 	for _, sc := range scopes {
